@@ -443,3 +443,70 @@ Definition fanout_dg_if_enabled (enableDatagrams : bool) (a : api) (e : errk) : 
   if enableDatagrams then f else
   {| a_mapErr := a_mapErr f; a_dgErr := a_dgErr a; a_rstreams := a_rstreams f; a_sstreams := a_sstreams f;
      a_canOpen := a_canOpen f; a_canAccept := a_canAccept f; a_rcvQueued := a_rcvQueued f; a_sendRoom := a_sendRoom f |}.
+
+(** * The connection as a whole: run loop, API objects, parked goroutines
+
+    Links the run loop's recorded close error to the fan-out: run() can leave its loop only with a recorded close error,
+    and then calls handleCloseError exactly once, which closes every API object with the MAPPED error and wakes the
+    goroutines parked in API calls. A parked call is a continuation: once woken it re-evaluates its wait condition
+    on the new state of its object (that is what the loops in AcceptStream / OpenStreamSync / readImpl / write /
+    datagramQueue.Receive / Add do) and either returns or parks again. *)
+Fixpoint unwoken_from (wk : call -> wakeup) (served : list call) (ps : list call) : list call :=
+  match ps with
+  | [] => []
+  | p :: r =>
+    match wk p with
+    | WakeAll => unwoken_from wk served r
+    | WakeOne => if in_dec call_eq_dec p served then p :: unwoken_from wk served r
+                 else unwoken_from wk (p :: served) r
+    end
+  end.
+
+Record conn := {
+  k_st : st;
+  k_api : api;
+  k_parked : list call;              (* goroutines parked in an API call *)
+  k_returned : list (call * res);    (* what parked goroutines were handed when they were woken *)
+  k_exited : bool }.                 (* run() has left its loop and handleCloseError has run *)
+
+Inductive cev :=
+| CLoop (e : ev)     (* an event of the run loop (none is processed after the loop has been left) *)
+| CCall (c : call)   (* a goroutine calls into the API *)
+| CExit.             (* run() leaves its loop and runs handleCloseError: only with a recorded close error, only once *)
+
+Definition is_blocked (r : res) : bool := match r with RBlock => true | _ => false end.
+
+(** immediate result of a call event: [None] = the goroutine parks (or the event is not a call) *)
+Definition cstep (k : conn) (e : cev) : conn * option res :=
+  match e with
+  | CLoop e' =>
+    if k_exited k then (k, None)
+    else ({| k_st := step (k_st k) e'; k_api := k_api k; k_parked := k_parked k; k_returned := k_returned k; k_exited := false |}, None)
+  | CCall c =>
+    let r := api_call (k_api k) c in
+    if is_blocked r then
+      (* one goroutine per stream direction (API contract; Write is serialised by writeOnce): a second concurrent
+         Read / Write on the same stream is not modelled *)
+      match close_wakeup c with
+      | WakeOne => if in_dec call_eq_dec c (k_parked k) then (k, None)
+                   else ({| k_st := k_st k; k_api := k_api k; k_parked := k_parked k ++ [c]; k_returned := k_returned k; k_exited := k_exited k |}, None)
+      | WakeAll => ({| k_st := k_st k; k_api := k_api k; k_parked := k_parked k ++ [c]; k_returned := k_returned k; k_exited := k_exited k |}, None)
+      end
+    else (k, Some r)
+  | CExit =>
+    match closeErr (k_st k), k_exited k with
+    | Some ce, false =>
+      let a' := fanout (k_api k) (mapped_err ce) in
+      let w := woken (k_parked k) in
+      ({| k_st := k_st k; k_api := a';
+          k_parked := unwoken_from close_wakeup [] (k_parked k) ++ filter (fun c => is_blocked (api_call a' c)) w;
+          k_returned := k_returned k ++ map (fun c => (c, api_call a' c)) (filter (fun c => negb (is_blocked (api_call a' c))) w);
+          k_exited := true |}, None)
+    | _, _ => (k, None)
+    end
+  end.
+
+Definition crun (k : conn) (l : list cev) : conn := fold_left (fun k e => fst (cstep k e)) l k.
+
+Definition conn_init (s : st) (a : api) : conn :=
+  {| k_st := s; k_api := a; k_parked := []; k_returned := []; k_exited := false |}.
